@@ -156,7 +156,11 @@ func (i *inst) Call(ctx context.Context, tid int, op string, args []string) stri
 func init() {
 	lockstep.AutoRegister["pool"] = 100
 	lockstep.Register("pool", func(params []string) lockstep.Instance {
+		// the constructor and the option functions are instrumented too; the controller's own goroutine
+		// must not be taken for a worker (AutoRegister), so the yield points are off while it constructs
+		verifhook.SetMode(verifhook.Off)
 		p, err := newPool(params)
+		verifhook.SetMode(verifhook.LockStep)
 		if err != nil {
 			panic("pool: constructor rejected lock-step parameters: " + err.Error())
 		}
